@@ -274,6 +274,42 @@ static void dupRaceCase(vf::Ctx& c)
 	if (c.want_sample()) c.sample(c.curdesc());
 }
 
+// Atomic<T> holding a handle (the documented Atomic<Array<float>> use): one thread publishes new arrays with operator=, others take
+// their own handle with the conversion operator and read through it; every published array is destroyed exactly once
+static void mode_atomic_handle(vf::Ctx& c)
+{
+	int readers = c.rng.range(1, 4), rounds = (int)c.opt->param("rounds", 3000);
+	c.desc(vf::fmt("Atomic<Array<Tracked>>: one writer publishing %d arrays, %d readers copying the handle out and reading it", rounds, readers));
+	reset_tracking();
+	std::atomic<int> bad(0), stop(0);
+	{
+		Array<Tracked> first;
+		for (int i = 0; i < 8; i++) first << Tracked(i);
+		Atomic<Array<Tracked> > pub(first);
+		std::vector<std::thread> th;
+		for (int r = 0; r < readers; r++)
+			th.emplace_back([&]() {
+				while (!stop.load()) {
+					Array<Tracked> mine = pub;   // conversion: takes a handle under the Atomic's lock
+					if (mine.length() != 8 || !mine[0].ok() || !mine[7].ok()) bad++;
+				}
+			});
+		for (int k = 0; k < rounds; k++) {
+			Array<Tracked> next;
+			for (int i = 0; i < 8; i++) next << Tracked(i + k);
+			pub = next;
+		}
+		stop = 1;
+		for (auto& x : th) x.join();
+	}
+	if (bad) c.fail("atomic-handle.read-through-live-handle-failed", vf::fmt("%d bad reads", (int)bad));
+	if (g_err) c.fail(std::string("atomic-handle.") + (const char*)g_err, "");
+	if (g_ctor != g_dtor) c.fail("atomic-handle.payload-not-destroyed-exactly-once", vf::fmt("constructed %ld destroyed %ld", (long)g_ctor, (long)g_dtor));
+	c.evals(rounds);
+	c.distinct(vf::mix(c.idx, (uint64_t)readers));
+	if (c.want_sample()) c.sample(c.curdesc());
+}
+
 static void mode_dup_race(vf::Ctx& c)
 {
 	switch (c.idx % 7) {
@@ -494,6 +530,7 @@ int main(int argc, char** argv)
 	R.add("chain", mode_chain, "cursors walking a shared linked list: cur = cur->next");
 	R.add("serial", mode_serial, "all interleavings of small handle scenarios at the atomic steps");
 	R.add("serial_counters", mode_serial_counters, "all interleavings of AtomicCount ops");
+	R.add("atomic_handle", mode_atomic_handle, "Atomic<Array<T>> published by one thread, copied out by others");
 	R.add("dup_race", mode_dup_race, "dup() racing the drop of the last other handle (containers)");
 	R.add("stress", mode_stress, "high-contention handle traffic");
 	R.add("counters", mode_counters, "AtomicCount / Atomic<T> conservation");
